@@ -172,6 +172,42 @@ def report():
         print(('CAUGHT ' + ','.join(r['caught_by'])) if r['caught_by'] else 'SILENT', '|', r['id'], '|', r['mutated_line'])
 
 
+def rerun_silent():
+    """survivors no check reported: apply again at the current HEAD and run all checks once more (after checks were extended)"""
+    res_path = os.path.join(OUT, 'results.jsonl')
+    res = [json.loads(l) for l in open(res_path)]
+    wt = '/tmp/wt-am9'
+    head = subprocess.check_output(['git', '-C', REPO, 'rev-parse', 'HEAD'], text=True).strip()
+    if not os.path.isdir(wt):
+        subprocess.check_call(['git', '-C', REPO, 'worktree', 'add', '-q', '--detach', wt, head])
+    sh(f'git checkout -q -- . && git checkout -q --detach {head}', cwd=wt)
+    baseline = {}
+    for c in CHECKS:
+        code, out = sh(f'./check {c} quick', cwd='/verif', timeout=3600, env={'VERIF_REPO': wt})
+        baseline[c] = set(re.findall(r'violation signature: (.*?) ::', out))
+    out_path = os.path.join(OUT, 'rerun-silent.jsonl')
+    for r in res:
+        if r['status'] != 'survives-suite' or r.get('caught_by'):
+            continue
+        sh('git checkout -q -- .', cwd=wt)
+        try:
+            new = mutate(wt, r['site'])
+        except Exception as e:
+            print(r['id'], 'site no longer matches:', e, flush=True)
+            continue
+        rec = {'id': r['id'], 'mutated_line': new, 'head': head, 'checks': {}}
+        for c in CHECKS:
+            code, out = sh(f'./check {c} quick', cwd='/verif', timeout=3600, env={'VERIF_REPO': wt})
+            sigs = [x for x in re.findall(r'violation signature: (.*?) ::', out) if x not in baseline.get(c, set())]
+            rec['checks'][c] = {'exit': code, 'new_signatures': len(sigs), 'example': sigs[0][:140] if sigs else None}
+        rec['caught_by'] = [c for c, x in rec['checks'].items() if x['exit'] == 1 and x['new_signatures'] > 0]
+        with open(out_path, 'a') as f:
+            f.write(json.dumps(rec) + '\n')
+        print(r['id'], 'now caught by' if rec['caught_by'] else 'still silent', rec['caught_by'], flush=True)
+    sh('git checkout -q -- .', cwd=wt)
+    subprocess.call(['git', '-C', REPO, 'worktree', 'remove', '--force', wt])
+
+
 if __name__ == '__main__':
     cmd = sys.argv[1] if len(sys.argv) > 1 else 'enumerate'
     if cmd == 'enumerate':
@@ -186,5 +222,7 @@ if __name__ == '__main__':
         seed = int(sys.argv[3]) if len(sys.argv) > 3 else 1
         w, k = (int(x) for x in sys.argv[4].split('/')) if len(sys.argv) > 4 else (0, 1)
         run(n, seed, w, k)
+    elif cmd == 'rerun-silent':
+        rerun_silent()
     else:
         report()
